@@ -99,7 +99,7 @@ def suite_wiring(ctx, case):
     ctx.corr('wiring', case, ctx.drv.ask('prism.create'), impl, what='createPRISM outcome')
     if p is None: return None
     line = G.wiring_tok(p)
-    ctx.corr('wiring', case, ctx.drv.ask('prism.wiring'), line, rtol=1e-11, atols=G.group_atols(line, 1e-12), what='closure.sigma / potential.sigma / U(r)/kT / omega*rho_site')
+    ctx.corr('wiring', case, ctx.drv.ask('prism.wiring'), line, rtol=1e-11, atols=G.wiring_atols(line, sd, p.sys.domain.k), what='closure.sigma / potential.sigma / U(r)/kT / omega*rho_site')
     ok, why = wiring_ok(p, sd)
     ctx.pred('wiring', case, ok and p.omega.space == Space.Fourier, 'PRISM wiring differs from the System: ' + why, key='C01:wiring')
     if case.get('second'):
@@ -112,7 +112,7 @@ def suite_wiring(ctx, case):
             warnings.simplefilter('ignore'); p2 = s.createPRISM()
         same = G.wiring_tok(p) == before
         ctx.pred('wiring', case, same, 'creating a second PRISM object from the same System (after changing kT and a diameter) changed the first object', key='C01:wiring')
-        ctx.corr('wiring', case, ctx.drv.ask('prism.wiring'), G.wiring_tok(p), rtol=1e-11, atols=G.group_atols(before, 1e-12), what='first PRISM object after a second one was created')
+        ctx.corr('wiring', case, ctx.drv.ask('prism.wiring'), G.wiring_tok(p), rtol=1e-11, atols=G.wiring_atols(before, sd, p.sys.domain.k), what='first PRISM object after a second one was created')
     return p
 
 def suite_cost(ctx, case):
